@@ -178,3 +178,41 @@ func (o *Oracles) Tainted() bool {
 	}
 	return false
 }
+
+// CheckLatestCfg (C07): the configuration a server acts on (GetConfiguration)
+// must be one it durably holds: the configuration of an entry in its log or of
+// one of its snapshots (or the empty one before bootstrap). Caller holds Mu and
+// calls at a quiescent cut. Returns false when the result was served from cache.
+func (o *Oracles) CheckLatestCfg(in *Instance, cfg raft.Configuration) bool {
+	if len(cfg.Servers) == 0 {
+		return false
+	}
+	key := cfgString(cfg)
+	if in.cfgOKKey == key && in.cfgOKOps == in.Srv.opCount {
+		return false
+	}
+	d := in.disk
+	ok := false
+	for _, sn := range d.Snaps {
+		if sameCfg(sn.Meta.Configuration, cfg) {
+			ok = true
+			break
+		}
+	}
+	if !ok {
+		for _, l := range d.Logs {
+			if l.Type == raft.LogConfiguration && sameCfg(raft.DecodeConfiguration(l.Data), cfg) {
+				ok = true
+				break
+			}
+		}
+	}
+	if !ok {
+		o.w.violate("C07", "R3", "C07/R3/latest-configuration-in-no-log-entry-or-snapshot",
+			"%s acts on configuration {%s} which is neither in an entry of its log nor in one of its snapshots (it counts a server no stored configuration names); log: %s",
+			in.ID(), key, d.LogString())
+		return true
+	}
+	in.cfgOKKey, in.cfgOKOps = key, in.Srv.opCount
+	return true
+}
